@@ -282,11 +282,11 @@ func runHistory(r *vf.Run, h int, bin string, base *baselines, nSteps int) histR
 				}
 			}
 		}
-		nPkgs := 3
+		nPkgs := 4
 		if cur.fl.Tests {
-			nPkgs = 5 // a, a [test], b, c + maybe a_test
+			nPkgs = 6 // a, a [test], b, c, s + maybe a_test
 			if cur.st.ExtTest {
-				nPkgs = 6
+				nPkgs = 7
 			}
 		}
 		hits := max(0, nPkgs-len(analysed))
